@@ -195,10 +195,36 @@ theorem two_errors_too_late : ∃ (ttl : Int) (a b c d : Iter), 0 < ttl ∧ a.wf
   ⟨4, ⟨0, 0, 0, 0, false⟩, ⟨2, 2, 2, 2, true⟩, ⟨3, 3, 3, 3, true⟩, ⟨4, 4, 4, 4, false⟩, by
     simp [Iter.wf, Iter.follows, Iter.nextFire, Iter.expire]⟩
 
-theorem ping_republish (interval delay tick s p s' p' : Int) (hd : delay < interval)
-    (h1 : tick ≤ s) (_h2 : s ≤ p) (_h3 : p ≤ tick + delay)
-    (_h1' : tick + interval ≤ s') (_h2' : s' ≤ p') (h3' : p' ≤ tick + interval + delay) :
-    p' < s + 2 * interval := by omega
+theorem ping_republish (interval delay : Int) (a b : Iter) (_hd : 0 ≤ delay) (h2 : 2 * delay < interval)
+    (ha : a.wf delay) (hb : b.wf delay) (hf : b.pingFollows interval a) : b.pub < a.pingExpire interval := by
+  obtain ⟨a1, a2, a3, a4⟩ := ha
+  obtain ⟨b1, b2, b3, b4⟩ := hb
+  unfold Iter.pingFollows Iter.pingNextFire at hf
+  unfold Iter.pingExpire
+  by_cases he : a.err = true
+  · simp only [he, if_true] at hf; omega
+  · simp only [he, Bool.false_eq_true, if_false] at hf; omega
+
+/-- a ping, one failed publish, the next ping: the retry after `interval / 2` lands before the first ping expires -/
+theorem ping_republish_after_one_error (interval delay : Int) (a b c : Iter) (_hd : 0 ≤ delay)
+    (h6 : 6 * delay < interval) (ha : a.wf delay) (hb : b.wf delay) (hc : c.wf delay)
+    (hab : b.pingFollows interval a) (hbc : c.pingFollows interval b)
+    (hae : a.err = false) (hbe : b.err = true) : c.pub < a.pingExpire interval := by
+  obtain ⟨a1, a2, a3, a4⟩ := ha
+  obtain ⟨b1, b2, b3, b4⟩ := hb
+  obtain ⟨c1, c2, c3, c4⟩ := hc
+  unfold Iter.pingFollows Iter.pingNextFire at hab hbc
+  unfold Iter.pingExpire
+  simp only [hae, hbe, if_true, Bool.false_eq_true, if_false] at hab hbc
+  omega
+
+/-- the loop as it was (a ticker, no retry): after one failed publish the next ping is not before the
+    expiry of the last delivered one, even with zero delay (repaired in /repo, see known_findings F31) -/
+theorem ping_ticker_one_error_too_late (interval : Int) (a c : Iter) (ha : a.wf 0) (hc : c.wf 0)
+    (h : c.fire = a.fire + 2 * interval) : ¬ c.pub < a.pingExpire interval := by
+  obtain ⟨a1, a2, a3, a4⟩ := ha
+  obtain ⟨c1, c2, c3, c4⟩ := hc
+  unfold Iter.pingExpire; omega
 
 /-! ### Non-vacuity: concrete histories meet the hypotheses and exercise every arm -/
 
